@@ -438,3 +438,97 @@ Example bool_leaf_breaks_f32 : eval (mkenv F32 B) st0 (Op In_ (Op PyF Mask)) = F
 Example int_leaf_breaks_f32 : eval (mkenv F32 I64) st0 (Op In_ Mask) = F64. Proof. reflexivity. Qed.
 Example bool_leaf_alone_is_harmless : eval (mkenv F32 B) st0 (Op In_ Mask) = F32. Proof. reflexivity. Qed.
 Example overwritten_bare_alloc_is_harmless : eval (mkenv F32 F32) st0 (Op In_ (Into In_ bare)) = F32. Proof. reflexivity. Qed.
+
+(* ---- soundness of the tolerant check used for the programs extracted from the Python source *)
+Lemma getb_nil x : getb [] x = false. Proof. destruct x; reflexivity. Qed.
+Lemma getb_setb_same l x v : getb (setb l x v) x = v.
+Proof. revert l. induction x as [|k IH]; intros [|b r]; simpl; auto. Qed.
+Lemma getb_setb_other l x y v : y <> x -> getb (setb l x v) y = getb l y.
+Proof.
+  revert l y. induction x as [|k IH]; intros [|b r] [|j] H; simpl; try congruence; try reflexivity;
+    try (rewrite IH by congruence); try rewrite !getb_nil; try reflexivity.
+Qed.
+Lemma subb_spec a : forall b, subb a b = true -> forall x, getb a x = true -> getb b x = true.
+Proof.
+  induction a as [|h r IH]; intros b H x Hx; [rewrite getb_nil in Hx; discriminate|].
+  simpl in H. apply andb_prop in H. destruct H as [H0 Hr]. destruct x as [|k]; simpl in Hx.
+  - subst h. simpl in H0. exact H0.
+  - specialize (IH (tl b) Hr k Hx). destruct b as [|hb rb]; simpl in *; [try rewrite getb_nil in IH; discriminate IH | exact IH].
+Qed.
+
+Definition Inv2 (t : dt) (D S : list bool) (st : state) : Prop :=
+  (forall x, getb D x = true -> inP t (st x) = true) /\ (forall x, getb S x = true -> strongP t (st x) = true).
+
+Lemma expr2_sound en st D S e : In (tau en) ctxs -> Inv2 (tau en) D S st -> ok_expr2 en D e = true ->
+  inP (tau en) (eval en st e) = true /\ (strong_expr2 en S e = true -> strongP (tau en) (eval en st e) = true).
+Proof.
+  intros Ht [HD HS]. induction e as [l|x|a IHa b IHb|a IHa b IHb|a IHa|a IHa|tg IHt v IHv]; simpl; intros Hok.
+  - split; [exact Hok | auto].
+  - split; [apply HD, Hok | apply HS].
+  - apply andb_prop in Hok. destruct Hok as [Oa Ob]. destruct (IHa Oa) as [Pa Sa]. destruct (IHb Ob) as [Pb Sb].
+    destruct (P_closed _ _ _ Ht Pa Pb) as [Pab Sab]. split; [exact Pab|]. intros Hs. apply Sab.
+    apply orb_prop in Hs. apply orb_true_intro. destruct Hs as [Hs|Hs]; [left; apply Sa, Hs | right; apply Sb, Hs].
+  - apply andb_prop in Hok. destruct Hok as [Oa Ob]. destruct (IHa Oa) as [Pa Sa]. destruct (IHb Ob) as [Pb Sb].
+    destruct (P_closed _ _ _ Ht Pa Pb) as [Pab Sab]. destruct (P_unary _ _ Ht Pab) as [Pf [_ Sf]]. split; [exact Pf|].
+    intros Hs. apply Sf. apply Sab. apply orb_prop in Hs. apply orb_true_intro.
+    destruct Hs as [Hs|Hs]; [left; apply Sa, Hs | right; apply Sb, Hs].
+  - destruct (IHa Hok) as [Pa Sa]. destruct (P_unary _ _ Ht Pa) as [Pf [_ Sf]]. split; [exact Pf|]. intros Hs. apply Sf, Sa, Hs.
+  - destruct (IHa Hok) as [Pa Sa]. destruct (P_unary _ _ Ht Pa) as [_ [Pr Sf]]. split; [exact Pr|]. intros Hs. apply Sf, Sa, Hs.
+  - exact (IHt Hok).
+Qed.
+
+Lemma block2_sound en b : In (tau en) ctxs -> forall D S st D' S', Inv2 (tau en) D S st ->
+  ok_block2 en D S b = (D', S') -> Inv2 (tau en) D' S' (exec en st b).
+Proof.
+  intros Ht. induction b as [|[x e] r IH]; simpl; intros D S st D' S' HI Hok.
+  - injection Hok as <- <-. exact HI.
+  - unfold exec. simpl. fold (exec en (upd st x (eval en st e)) r).
+    eapply IH; [|exact Hok]. pose proof HI as [HD HS]. split.
+    + intros y Hy. unfold upd. destruct (Nat.eqb y x) eqn:E.
+      * apply Nat.eqb_eq in E. subst y. rewrite getb_setb_same in Hy.
+        destruct (expr2_sound en st D S e Ht HI Hy) as [Pe _]. exact Pe.
+      * apply Nat.eqb_neq in E. rewrite getb_setb_other in Hy by exact E. apply HD, Hy.
+    + intros y Hy. unfold upd. destruct (Nat.eqb y x) eqn:E.
+      * apply Nat.eqb_eq in E. subst y. rewrite getb_setb_same in Hy. apply andb_prop in Hy. destruct Hy as [Oe Se].
+        destruct (expr2_sound en st D S e Ht HI Oe) as [_ H]. apply H, Se.
+      * apply Nat.eqb_neq in E. rewrite getb_setb_other in Hy by exact E. apply HS, Hy.
+Qed.
+
+Lemma Inv2_st0 t : Inv2 t [] [] st0.
+Proof. split; intros x H; rewrite getb_nil in H; discriminate. Qed.
+
+Theorem prog2_precision_preserved en p : In (tau en) ctxs -> prog_ok2 en p = true ->
+  forall n s e, In (s, e) (p_outs p) -> strongP (tau en) (eval en (run en p n) e) = true.
+Proof.
+  intros Ht Hok n s e Hin. unfold prog_ok2 in Hok.
+  destruct (ok_block2 en [] [] (p_init p)) as [D1 S1] eqn:E1.
+  destruct (ok_block2 en D1 S1 (p_body p)) as [D2 S2] eqn:E2.
+  apply andb_prop in Hok. destruct Hok as [Hsub Houts]. apply andb_prop in Hsub. destruct Hsub as [HsD HsS].
+  assert (I1 : Inv2 (tau en) D1 S1 (exec en st0 (p_init p))) by (eapply block2_sound; [exact Ht | apply Inv2_st0 | exact E1]).
+  assert (In_ : Inv2 (tau en) D1 S1 (run en p n)).
+  { unfold run. apply iter_inv; [|exact I1]. intros st HI.
+    destruct (block2_sound en (p_body p) Ht D1 S1 st D2 S2 HI E2) as [HD HS]. split.
+    - intros x Hx. apply HD. eapply subb_spec; eauto.
+    - intros x Hx. apply HS. eapply subb_spec; eauto. }
+  rewrite forallb_forall in Houts. specialize (Houts (s, e) Hin). simpl in Houts. apply andb_prop in Houts.
+  destruct Houts as [Oe Se]. destruct (expr2_sound en (run en p n) D1 S1 e Ht In_ Oe) as [_ H]. apply H, Se.
+Qed.
+
+Theorem ext_ok_any_sound p : ext_ok_any p = true -> forall t m, In t ctxs -> In m mask_dts ->
+  forall n s e, In (s, e) (p_outs p) -> strongP t (eval (mkenv t m) (run (mkenv t m) p n) e) = true.
+Proof.
+  intros H t m Ht Hm. unfold ext_ok_any in H. rewrite forallb_forall in H. specialize (H t Ht).
+  rewrite forallb_forall in H. specialize (H m Hm). exact (prog2_precision_preserved (mkenv t m) p Ht H).
+Qed.
+Theorem ext_ok_same_sound p : ext_ok_same p = true -> forall t, In t ctxs ->
+  forall n s e, In (s, e) (p_outs p) -> strongP t (eval (mkenv t t) (run (mkenv t t) p n) e) = true.
+Proof.
+  intros H t Ht. unfold ext_ok_same in H. rewrite forallb_forall in H. specialize (H t Ht).
+  exact (prog2_precision_preserved (mkenv t t) p Ht H).
+Qed.
+(* non-vacuity / sensitivity of the tolerant check on a three-statement program *)
+Example prog_ok2_example :
+  prog_ok2 (mkenv F32 B) (mkprog [(0, In_); (1, bools); (2, Op (Var 0) (Into (Var 0) bare))] [(0, Op (Var 0) PyF)] [("*", Var 2)]) = true /\
+  prog_ok2 (mkenv F32 B) (mkprog [(0, In_); (2, Op (Var 0) bare)] [] [("*", Var 2)]) = false /\
+  prog_ok2 (mkenv F32 B) (mkprog [(0, In_); (1, bools); (2, Op (Var 0) (Var 1))] [] [("*", Var 2)]) = false.
+Proof. repeat split; reflexivity. Qed.
